@@ -284,6 +284,8 @@ class Interp:
             return len(v.vals) > 0
         if isinstance(v, dict):
             return len(v) > 0
+        if isinstance(v, self.bm.SDict):
+            return len(v.pairs) > 0
         if isinstance(v, SObj):
             f = v.cls.lookup("__bool__") or v.cls.lookup("__len__")
             if f is not None:
@@ -482,7 +484,9 @@ class Interp:
 
     def st_Raise(self, st, env):
         if st.exc is None:
-            raise Unsupported("bare raise")
+            if getattr(self, "handling", None):
+                raise self.handling[-1]
+            raise Unsupported("bare raise outside an except block")
         e = self.eval(st.exc, env)
         if isinstance(e, (RepoClass, BuiltinClass)):
             e = self.call(e, [], {})
@@ -504,7 +508,13 @@ class Interp:
                 if match:
                     if h.name:
                         env.vars[h.name] = r.exc
-                    self.exec_block(h.body, env)
+                    if not hasattr(self, "handling") or self.handling is None:
+                        self.handling = []
+                    self.handling.append(r)
+                    try:
+                        self.exec_block(h.body, env)
+                    finally:
+                        self.handling.pop()
                     return
             raise
         else:
@@ -886,6 +896,8 @@ class Interp:
             return self.items_of(v)
         if isinstance(v, dict):
             return list(v.keys())
+        if isinstance(v, self.bm.SDict):
+            return [k for k, _ in v.pairs]
         if isinstance(v, str):
             return list(v)
         if isinstance(v, range):
@@ -1130,6 +1142,17 @@ class Interp:
                 return False, (path + ": attribute sets differ %s vs %s" % (sorted(a.attrs), sorted(b.attrs)), None)
             for k in a.attrs:
                 ok, why = self.same_value(a.attrs[k], b.attrs[k], path + "." + k)
+                if not ok:
+                    return ok, why
+            return True, None
+        if isinstance(a, self.bm.SDict) and isinstance(b, self.bm.SDict):
+            if len(a.pairs) != len(b.pairs):
+                return False, (path + ": number of keys differs (%d vs %d)" % (len(a.pairs), len(b.pairs)), None)
+            for n, ((ka, va), (kb, vb)) in enumerate(zip(a.pairs, b.pairs)):
+                ok, why = self.same_value(ka, kb, "%s.key[%d]" % (path, n))
+                if not ok:
+                    return ok, why
+                ok, why = self.same_value(va, vb, "%s[%d]" % (path, n))
                 if not ok:
                     return ok, why
             return True, None
